@@ -246,6 +246,23 @@ func ContBody(cursor, call string, cancel bool, input []int64, as32 bool, user h
 	return contBody(cursor, call, cancel, input, as32, user, false)
 }
 
+// ContMeta is the metadata of a continuation request batch.
+func ContMeta(cursor, call string, cancel bool, user hx.Meta) hx.Meta {
+	m := hx.Meta{}
+	m.Keys = append(m.Keys, user.Keys...)
+	m.Vals = append(m.Vals, user.Vals...)
+	if cursor != "" {
+		m = m.Add(hx.KState, cursor)
+	}
+	if call != "" {
+		m = m.Add(hx.KCallState, call)
+	}
+	if cancel {
+		m = m.Add(hx.KCancel, "1")
+	}
+	return m
+}
+
 func contBody(cursor, call string, cancel bool, input []int64, as32 bool, user hx.Meta, dup bool) []byte {
 	m := hx.Meta{}
 	m.Keys = append(m.Keys, user.Keys...)
